@@ -378,6 +378,7 @@ func (r *Runner) stmt(ctx context.Context, st *syntax.Stmt) {
 func (r *Runner) stmtSync(ctx context.Context, st *syntax.Stmt) {
 	oldIn, oldOut, oldErr := r.stdin, r.stdout, r.stderr
 	var closers []io.Closer
+	redirFailed := false
 	for _, rd := range st.Redirs {
 		cls, err := r.redir(ctx, rd)
 		if err != nil {
@@ -386,6 +387,7 @@ func (r *Runner) stmtSync(ctx context.Context, st *syntax.Stmt) {
 				r.errf("%v\n", err)
 			}
 			r.exit.code = 1
+			redirFailed = true
 			break
 		}
 		if cls != nil {
@@ -410,7 +412,12 @@ func (r *Runner) stmtSync(ctx context.Context, st *syntax.Stmt) {
 			r.exit.clear()
 		}
 	} else if b, ok := st.Cmd.(*syntax.BinaryCmd); ok && (b.Op == syntax.AndStmt || b.Op == syntax.OrStmt) {
-	} else if !r.exit.ok() && !r.noErrExit {
+	} else if !r.exit.ok() && !r.noErrExit && !r.exit.exiting && !r.exit.returning && (redirFailed || !isCompound(st.Cmd)) {
+		// Compound commands are left out unless their own redirection
+		// failed: a failure inside them was already handled where it
+		// happened, unless errexit was being ignored there, and then it must
+		// not apply to the compound command either.
+		// Likewise "exit 3" and "return 3" are not failures of their own.
 		r.trapCallback(ctx, r.callbackErr, "error")
 		// If the "errexit" option is set and a command failed, exit the shell. Exceptions:
 		//
@@ -431,6 +438,15 @@ func (r *Runner) stmtSync(ctx context.Context, st *syntax.Stmt) {
 			cls.Close()
 		}
 	}
+}
+
+// isCompound reports whether cm is a compound command other than a subshell.
+func isCompound(cm syntax.Command) bool {
+	switch cm.(type) {
+	case *syntax.Block, *syntax.IfClause, *syntax.WhileClause, *syntax.ForClause, *syntax.CaseClause:
+		return true
+	}
+	return false
 }
 
 func (r *Runner) cmd(ctx context.Context, cm syntax.Command) {
